@@ -589,6 +589,21 @@ def catalogue():
         a[0][r.randrange(len(a[0].chords))] = a[1]
         return None
     add("inplace:score[i]=chord", ["score", "chord"], assign_item)
+    def assign_into_result(a, r):
+        # an operation whose result holds everything of its operand (the whole window, a repetition up to the score's own length, the full
+        # slice, one repetition, a copy), then the in-place form on that RESULT: nothing of the pool may change
+        s_ = a[0]
+        how = r.choice(["window", "window+", "window()", "repeat", "slice", "mul1", "copy", "add_none"])
+        d = Fr(s_.duration)
+        res = {"window": lambda: s_.get_score_between(0, d), "window+": lambda: s_.get_score_between(0, d + 1), "window()": lambda: s_.get_score_between(),
+               "repeat": lambda: s_.repeat_until_duration(d), "slice": lambda: s_[0:len(s_.chords)], "mul1": lambda: s_ * 1,
+               "copy": lambda: s_.copy(), "add_none": lambda: s_ + None}[how]()
+        if res is None or not getattr(res, "chords", None):
+            raise Skip()
+        res[r.randrange(len(res.chords))] = a[1]
+        return None
+    add("whole-result-then-assign", ["score", "chord"], assign_into_result)
+    add("whole-result-then-assign2", ["score", "chord"], assign_into_result)
     add("score*1", ["score"], lambda a, r: a[0] * 1)
     add("chord*1", ["chord"], lambda a, r: a[0] * 1)
     add("ton+ton", ["ton", "ton"], lambda a, r: a[0] + a[1])
